@@ -70,6 +70,8 @@ pub enum MatchTypePattern {
     Null,
     Timestamp,
     Duration,
+    Type,
+    Dyn,
 }
 
 impl MatchTypePattern {
@@ -83,9 +85,11 @@ impl MatchTypePattern {
             "bytes" => MatchTypePattern::Bytes,
             "list" => MatchTypePattern::List,
             "object" => MatchTypePattern::Object,
-            "null" => MatchTypePattern::Null,
+            "null" | "null_type" => MatchTypePattern::Null,
             "timestamp" => MatchTypePattern::Timestamp,
             "duration" => MatchTypePattern::Duration,
+            "type" => MatchTypePattern::Type,
+            "dyn" => MatchTypePattern::Dyn,
             _ => panic!("Unknown type"),
         }
     }
